@@ -331,7 +331,7 @@ def _mask(draw, a):
 def _with_where(draw, kw, a, og, with_initial=False):
     """Sometimes a reduction mask (numeric operands only: numpy itself is the reference there)."""
     const = getattr(og, "mode", "") == "const"
-    if draw(st.integers(0, 4)) == 0 and (const or with_initial):
+    if draw(st.integers(0, 2)) == 0 and (const or with_initial):
         kw["where"] = _mask(draw, a)
         if not const:
             # (numpy needs a start value to mask a fold over objects: the exact model is such a fold)
